@@ -52,14 +52,19 @@ CouplingClauses(gg, r) ==
        ToSet(r.wcd) = WeakDiscs(gg) /\ Len(r.wcd) = Cardinality(WeakDiscs(gg))) \cup
   Fail("couplings", "StrongGroups",
        {ToSet(r.sgroups[k]) : k \in 1..Len(r.sgroups)} = StrongGroups(gg) /\ Len(r.sgroups) = Cardinality(StrongGroups(gg))) \cup
-  Fail("couplings", "OutputCouplings",     \* get_output_couplings(d, strong) = outputs of d among the strong / all couplings
-       LET st == StrongC(gg)  al == AllC(gg) IN
-       \A p \in Pos(gg) : /\ ToSet(r.outc[p][1]) = gg.outs[p] \cap st
-                          /\ ToSet(r.outc[p][2]) = gg.outs[p] \cap al) \cup
+  Fail("couplings", "OutputCouplings",     \* get_output_couplings(d, strong=True) = outputs of d among the strong couplings;
+       LET st == StrongC(gg)  al == AllC(gg)  wk == WeakC(gg) IN   \* strong=False: documented "the weak ones", coded "all":
+       \A p \in Pos(gg) : /\ ToSet(r.outc[p][1]) = gg.outs[p] \cap st    \* either reading is accepted (relation)
+                          /\ \/ ToSet(r.outc[p][2]) = gg.outs[p] \cap al
+                             \/ ToSet(r.outc[p][2]) = gg.outs[p] \cap wk) \cup
   Fail("couplings", "InputCouplings",
-       LET st == StrongC(gg)  al == AllC(gg) IN
+       LET st == StrongC(gg)  al == AllC(gg)  wk == WeakC(gg) IN
        \A p \in Pos(gg) : /\ ToSet(r.inc[p][1]) = gg.ins[p] \cap st
-                          /\ ToSet(r.inc[p][2]) = gg.ins[p] \cap al) \cup
+                          /\ \/ ToSet(r.inc[p][2]) = gg.ins[p] \cap al
+                             \/ ToSet(r.inc[p][2]) = gg.ins[p] \cap wk) \cup
+  Fail("couplings", "GraphEdges",          \* get_disciplines_couplings(): (from, to, names) = the labelled dependency graph
+       /\ {<<r.edges[k][1], r.edges[k][2], ToSet(r.edges[k][3])>> : k \in 1..Len(r.edges)} = LabelledEdges(gg)
+       /\ Len(r.edges) = Cardinality(LabelledEdges(gg))) \cup
   Fail("couplings", "FindDiscipline",      \* find_discipline(v): a discipline producing v (0: raised)
        \A k \in 1..Len(r.finder) :
           LET v == r.finder[k][1]  p == r.finder[k][2]
@@ -76,15 +81,21 @@ RunClauses(gg, run, mono) ==
       Fail(kind, "Runs", run.status = "ok") \cup
       (IF run.status # "ok" \/ ~Consistent(gg) THEN {}
        ELSE Fail(kind, "Exact", Exact(gg, run, mono)) \cup
-            Fail(kind, "InnerMDAs",       \* one inner MDA per strongly coupled group, members in listing order
+            Fail(kind, "ExecutionOrder", RespectsDependencies(gg, run.log)) \cup
+            Fail(kind, "InnerMDAs",       \* exactly one inner MDA per strongly coupled group
                  /\ {ToSet(run.mdas[k]) : k \in 1..Len(run.mdas)} = StrongGroups(gg)
                  /\ Len(run.mdas) = Cardinality(StrongGroups(gg))
-                 /\ \A k \in 1..Len(run.mdas) : run.mdas[k] = SortedSeq(ToSet(run.mdas[k]))))
+                 /\ \A k \in 1..Len(run.mdas) : Len(run.mdas[k]) = Cardinality(ToSet(run.mdas[k]))))
   ELSE IF kind \in {"chain", "parchain"} THEN
       Fail(kind, "Applicable", Consistent(gg) /\ AllSingletons(gg)) \cup
       Fail(kind, "Runs", run.status = "ok") \cup
       (IF run.status # "ok" \/ ~(Consistent(gg) /\ AllSingletons(gg)) THEN {}
-       ELSE Fail(kind, "Exact", Exact(gg, run, mono)))
+       ELSE Fail(kind, "Exact", Exact(gg, run, mono)) \cup
+            Fail(kind, "ExecutionOrder", RespectsDependencies(gg, run.log)) \cup
+            Fail(kind, "ChainGrammars",    \* inputs: what no earlier discipline of the chain produces; outputs: everything produced
+                 (kind = "chain") =>
+                    /\ ToSet(run.gin) = ChainInputs(gg, run.order, {})
+                    /\ ToSet(run.gout) = GOut(gg, Pos(gg))))
   ELSE IF kind = "initchain" THEN
       Fail(kind, "Applicable", Consistent(gg)) \cup
       (IF ~Consistent(gg) THEN {}
@@ -92,6 +103,7 @@ RunClauses(gg, run, mono) ==
             THEN Fail(kind, "Runs", run.status = "ok") \cup
                  (IF run.status # "ok" THEN {}
                   ELSE Fail(kind, "OrderValid", ValidInitOrder(gg, run.order)) \cup
+                       Fail(kind, "ExecutionOrder", RespectsDependencies(gg, run.log)) \cup
                        Fail(kind, "Exact", Exact(gg, run, mono)))
             ELSE Fail(kind, "RejectsCycle", run.status = "raised:ValueError"))
   ELSE {<<kind, "UnknownKind">>}
